@@ -425,7 +425,7 @@ func (z *ZodSet[T, R]) validateForEngine(value map[T]struct{}, chks []core.ZodCh
 	}
 
 	if len(collected) > 0 {
-		return nil, issues.CreateArrayValidationIssues(collected)
+		return nil, issues.CreateArrayValidationIssues(collected, ctx)
 	}
 	return value, nil
 }
